@@ -98,8 +98,8 @@ class C03(Property):
         "termination is decided in logical steps: total updates <= sum_c ceil((end + D - start_c)/min_step_c) + |C| with D = sum of the largest steps and fixed delays",
         "harness components always advance their time in update(); 'time strictly increasing' is checked on what the driver observes",
     )
-    cases = {"quick": 1000, "thorough": 20000}
-    min_nontrivial = {"quick": 350, "thorough": 4000}
+    cases = {"quick": 1000, "thorough": 100000}
+    min_nontrivial = {"quick": 350, "thorough": 20000}
 
     def gen(self, rnd, i, tier):
         if i % 40 == 39:
